@@ -202,6 +202,8 @@ func ScanFooter(options *StoreOptions, fref *FileRef, fileName string,
 			continue // For example, a page of the footer was not written.
 		}
 
+		f.initChildRefs()
+
 		err = f.loadSegments(options, fref)
 		if err != nil {
 			continue // For example, segment data beyond the end of file.
@@ -406,7 +408,26 @@ func (f *Footer) DecRef() {
 		f.SegmentLocs = nil
 		f.ss = nil
 	}
+	releaseChildren := f.refs == 0
 	f.m.Unlock()
+
+	if releaseChildren {
+		// A footer holds one ref-count on each of its child footers.
+		for _, childFooter := range f.ChildFooters {
+			childFooter.DecRef()
+		}
+	}
+}
+
+// initChildRefs gives the child footers, recursively, the ref-count
+// that their parent footer holds on them.  Needed for footers that
+// were decoded from their persisted JSON, whose child footers come
+// without any ref-count.
+func (f *Footer) initChildRefs() {
+	for _, childFooter := range f.ChildFooters {
+		childFooter.refs = 1
+		childFooter.initChildRefs()
+	}
 }
 
 // Length returns the length of this footer
